@@ -98,6 +98,9 @@ def make(name, **over):
     if base == "LevelBasedForaging":
         gs, a, f = (int(x) for x in (var or "5x2x1").split("x"))
         return E.LevelBasedForaging(generator=g["LBFGen"](grid_size=gs, fov=over.pop("fov", 2), num_agents=a, num_food=f), **tl(), **over)
+    if base == "Maze" and var == "toy":
+        from jumanji.environments.routing.maze.generator import ToyGenerator as MazeToy
+        return E.Maze(generator=MazeToy(), **tl(), **over)
     if base == "Maze":
         r, c = (int(x) for x in (var or "3x5").split("x"))
         return E.Maze(generator=g["MazeGen"](num_rows=r, num_cols=c), **tl(), **over)
